@@ -35,6 +35,16 @@ CHECKS = {
             'The complete single-error neighbourhood (every position of the protected span x every other same-class character; every '
             'adjacent transposition where promised) of every valid number reached by E2 is executed on is_valid(); none may be accepted.',
             'Valid numbers reachable within E2 depth 1 (thorough 2) of the seeds; module/span table from the statement.', 'DESIGN.md 2/C17'),
+    'C04': ('E1', 'bounded-deviation exploration of accepted presentations + accepted-number graph x format options; format/validate round trip on the implementation',
+            'Every accepted E1 state and E2 valid number of each module with format() x each single non-default format option: '
+            'format(x) does not raise, validate(format(x)) equals validate(x) up to the documented normalisation, and '
+            'format(x) == format(validate(x)).',
+            'Normalisers for ISMN/ISAN/ISIL/MEID/IMEI/ISBN(convert) are hand-written from the statement.', 'DESIGN.md 2/C04'),
+    'C12': ('E2', 'explicit-state search of the accepted-number graph x clock menu; every getter executed on every reached valid number',
+            'Every discovered derived-attribute function is executed on every valid number reached by E2 (and the written seed '
+            'spellings), under each clock answer for clock readers: documented kind or ValidationError, dates agree with the digits '
+            'and the year/month getters, split() re-joins.',
+            'Kinds by function name and date field maps are hand-written from docstrings; getter options at defaults.', 'DESIGN.md 2/C12'),
 }
 
 NOT_YET = {}
